@@ -71,7 +71,7 @@ MANIFEST = {
 }
 CONFIGS = {
     "quick": [("valid", 1500), ("mutated", 4500), ("files", 500),
-              ("boundary", 320), ("extended", 300)],
+              ("boundary", 320), ("extended", 600)],
     "thorough": [("valid", 2), ("mutated", 6), ("files", 2),
                  ("boundary", 2), ("extended", 1)],
 }
@@ -473,12 +473,17 @@ def generate(rng, config):
                 case["argv"] = fam.split() + ftoks
         case["file_faults"] = "all"
         case["fault_seed"] = rng.randrange(2 ** 30)
+    if config == "extended" and rng.random() < 0.3:
+        # the help texts go through the same streams
+        case["argv"] = list(case["argv"])
+        case["argv"].insert(rng.choice([0, 0, 0, len(case["argv"])]),
+                            rng.choice(HELP_FLAGS))
     if config == "extended":
         case["extended"] = rng.choice(["stdout_epipe", "stdout_enospc",
                                        "outfile_enospc", "stdin_eio",
                                        "stdin_closed", "stdin_closed",
-                                       "stdout_closed", "stderr_closed",
-                                       "stderr_closed"])
+                                       "stdout_closed", "stdout_closed",
+                                       "stderr_closed", "stderr_closed"])
     # the locale of the process (what open() without an encoding uses)
     case["locale"] = rng.choice([None, None, None, "ascii", "latin-1",
                                  "cp1252"])
